@@ -172,6 +172,9 @@ class Fn:
             if t['otherwise'] not in out:
                 out.append(t['otherwise'])
             return out
+        if t['t'] == 'falseEdge':
+            # FalseEdge { real_target, imaginary_target }: only the real edge exists at run time
+            return list(t.get('succ', []))[:1]
         return list(t.get('succ', []))
 
     # ---------------------------------------------------------------- CFG analyses
